@@ -30,6 +30,7 @@ type Projection struct {
 	SkipPreamble bool // the property does not judge startup/auth/parameters (preamble rule)
 	Global       bool // keep the "global parameter map after the run" event
 	Wire         bool // keep the raw-wire facts of a TLS session (every server write is TLS records)
+	Alloc        bool // measure and keep the allocation caused by every hostile message
 	Intact       bool // keep the "everything retained is intact" event
 	Recv    map[string]fieldSet // per backend message type; "*" = default
 	Cb      map[string]fieldSet // per callback name; "*" = default
@@ -115,6 +116,9 @@ var Projections = map[string]*Projection{
 	// isolation: everything a connection sees and everything its callbacks see, except row payload encodings
 	"C15": {Recv: map[string]fieldSet{"*": kinds, "S": fs("key", "val"), "T": fs("n", "names", "oids"), "D": fs("n", "cells"), "C": fs("tag"), "R": fs("code")},
 		Cb: map[string]fieldSet{"*": fs("q", "def", "si", "params", "ret", "written", "cp", "sp", "mw", "i", "intact")}},
+	// robustness: reply kinds, which callbacks ran, allocation per hostile message
+	"C04": {Alloc: true, Recv: map[string]fieldSet{"*": kinds, "R": fs("code"), "ssl": fs("b")},
+		Cb: map[string]fieldSet{"*": fs("q", "def", "ret")}},
 	"C20": {SkipPreamble: true, Recv: map[string]fieldSet{"*": kinds, "t": fs("n", "wf")},
 		Cb: map[string]fieldSet{"*": fs("q", "def")}},
 	"C09": {SkipPreamble: true, Recv: map[string]fieldSet{"*": kinds, "T": fs("n", "oids", "fmts"), "D": fs("n", "cells")},
